@@ -758,6 +758,17 @@ func (e *Env) Blocked() []string {
 	return out
 }
 
+// Sleepers counts the threads parked in a virtual Sleep (e.g. a retry loop).
+func (e *Env) Sleepers() int {
+	n := 0
+	for _, t := range e.w.threads {
+		if !t.done && t.pend != nil && t.pend.kind == "sleep" {
+			n++
+		}
+	}
+	return n
+}
+
 // Quiet redirects the process' stdout to /dev/null and returns a writer on the original.
 func Quiet() *os.File {
 	orig := os.Stdout
